@@ -7,32 +7,33 @@ SNAMES = ["s", "t", "u", "grp", "opts"]
 
 # type -> (list of default texts, list of valid source texts, list of invalid source texts)
 TYPES = {
-    "int": (["1", "None", "4/2"], ["2", "3", "-7", "None", "10"], ["x", "1.5", "inf"]),
+    "int": (["1", "None", "4/2", "Auto"], ["2", "3", "-7", "None", "10", "Auto", "auto"], ["x", "1.5", "inf", '"None"']),
     "int(value_min=0, value_max=9)": (["1"], ["0", "9", "5"], ["-1", "10"]),
     "int(allow_none=False)": (["2"], ["3", "4"], ["None"]),
     "float": (["1.5", "2", "None"], ["2.5", "1e-3", "-0.25", "3"], ["x"]),
     "float(value_min=0)": (["0.5"], ["0", "7.25"], ["-1"]),
     "bool": (["True", "False", "yes", "None"], ["True", "False", "no", "on", "0"], ["maybe"]),
-    "str": (["x", '"a b"', "None", "a b"], ["y", '"p q"', "'it'", "None", "a  b"], []),
-    "qstr": (["x", '"a b" c'], ["y", "'p q' r"], []),
-    "path": (["x.dat", "None"], ["/tmp/y", '"a b/c"'], []),
-    "key": (["k1"], ["k2", "None"], []),
+    "str": (["x", '"a b"', "None", "a b", "Auto"], ["y", '"p q"', "'it'", "None", "a  b", '"None"', '"Auto"', "Auto", "'none'"], []),
+    "qstr": (["x", '"a b" c', "None"], ["y", "'p q' r", '"None"', "None"], []),
+    "path": (["x.dat", "None", "Auto"], ["/tmp/y", '"a b/c"', '"None"', '"Auto"', "None"], []),
+    "key": (["k1", "None"], ["k2", "None", '"None"', "Auto"], []),
     "ints": (["1 2", "None"], ["3", "4 5 6", "1,2"], ["x", "1.5"]),
     "ints(size=2)": (["1 2"], ["3 4"], ["1", "1 2 3"]),
     "floats": (["1.5 2"], ["0.5", "1 2 3"], ["x"]),
     "floats(size_max=2, value_min=0)": (["1"], ["0.5 2"], ["1 2 3", "-1"]),
-    "strings": (["a b", "None"], ["c", "d 'e f'"], []),
-    "words": (["a 'b c'"], ["d", "e f"], []),
+    "strings": (["a b", "None", "Auto"], ["c", "d 'e f'", '"None"', 'a "Auto"', "Auto", "None"], []),
+    "words": (["a 'b c'", "None"], ["d", "e f", '"None"', "None", "Auto"], []),
     "choice": (["a *b c", "a b c", "*a b c d", "lo *hi", "x *a"], ["a", "*c", "c", "None"], ["zz", "*a *b"]),
     "choice(multi=True)": (["*a b *c", "a b c", "a *d e", "*lo hi mid"], ["a", "*a *b", "a+b", "None"], ["zz"]),
-    None: (["x y", "1", "None"], ["p", "q r", "'s t'"], []),
+    None: (["x y", "1", "None", "Auto"], ["p", "q r", "'s t'", '"None"', "'Auto'", "None"], []),
 }
 
 
 class MasterGen:
     def __init__(self, rng, depth=2, multiples=True, nested_multiples=False, noncanonical=True, disabled=True,
-                 further=True, types=None, deprecated=False):
+                 further=True, types=None, deprecated=False, reopen=False):
         self.deprecated = deprecated
+        self.reopen = reopen
         self.rng = rng
         self.depth = depth
         self.multiples = multiples
@@ -65,6 +66,8 @@ class MasterGen:
         node = {"k": "s", "name": name, "multiple": mult, "optional": r.choice([None, None, True, False]),
                 "dis": self.disabled and r.random() < 0.05, "expert": r.choice([None, None, 0, 1]),
                 "help": r.choice([None, "scope help"]), "kids": self.objs(depth - 1, in_multiple or mult), "further": []}
+        if self.reopen and not mult and not node["dis"] and len(node["kids"]) >= 2 and r.random() < 0.5:
+            node["reopen"] = r.randint(1, len(node["kids"]) - 1)    # written as two blocks of the same (non-multiple) scope
         return node
 
     def objs(self, depth, in_multiple=False):
@@ -115,7 +118,13 @@ def render_master(nodes, indent=""):
                 s += "%s%s%s\n%s%s{\n" % (indent, bang, n["name"], a, indent)
             else:
                 s += "%s%s%s {\n" % (indent, bang, n["name"])
-            s += render_master(n["kids"], indent + "  ")
+            k = n.get("reopen")
+            if k:
+                s += render_master(n["kids"][:k], indent + "  ")
+                s += "%s}\n%s%s {\n" % (indent, indent, n["name"])
+                s += render_master(n["kids"][k:], indent + "  ")
+            else:
+                s += render_master(n["kids"], indent + "  ")
             s += "%s}\n" % indent
     return s
 
@@ -180,6 +189,11 @@ class SourceGen:
                 if kv < 0.6:
                     var = "v%d" % r.randint(1, 3)
                     lines.append("%s = %s\n" % (var, v))       # a helper definition the master does not declare
+                    if r.random() < 0.35:
+                        # a chain: the parameter refers to a helper that refers to a helper
+                        var2 = "w%d" % r.randint(1, 2)
+                        lines.append("%s = %s\n" % (var2, r.choice(["$" + var, "$(" + var + ")"])))
+                        var = var2
                     v = r.choice(["$" + var, "$(" + var + ")", "$(." + var + ")"])
                 elif kv < 0.8:
                     v = r.choice(["$PHILENV_A", "$(PHILENV_B)"])
